@@ -170,7 +170,36 @@ def _vec_sorted(body, uses, tr, collect_term):
         if not body.dominates(sb, ob) or ob == sb:
             return ("sensitive", "the collected Vec is used before it is sorted")
     nm = callee_fn(st)["def"].rsplit("::", 1)[-1]
+    if nm not in ("sort", "sort_unstable"):
+        why = _sort_key_total(body, tr, st, nm)
+        if why is not True:
+            return ("sensitive", "the collected Vec is sorted by %s with a key that is not the elements' own order (%s): ties keep hash order" % (nm, why))
     return ("ok", "collected into a Vec and sorted (%s) before any other use" % nm)
+
+
+def _sort_key_total(body, tr, st, nm):
+    """sort_by / sort_by_key are accepted only when they order by the elements themselves (or by a
+    projection of the element that identifies it): `|a, b| a.cmp(b)`, `|a, b| a.0.cmp(b.0)`, `|e| e.0`"""
+    cl = strip(tr.operand(st["args"][1]))
+    if not (cl[0] == "agg" and cl[1] == "closure"):
+        return "comparator is not a closure"
+    prog = PROG[0]
+    cf = prog.fns.get(cl[2]) if prog else None
+    if cf is None:
+        return "closure body not found"
+    ret = canon(Tracer(cf.body).local(0))
+    if nm in ("sort_by", "sort_unstable_by"):
+        m = re.match(r"^Ord::cmp\(&?\**arg:(\w+)((?:\.\d+)*), &?\**arg:(\w+)((?:\.\d+)*)\)$", ret)
+        if m and m.group(1) != m.group(3) and m.group(2) == m.group(4):
+            return True
+        return "comparator is `%s`" % ret[:100]
+    m = re.match(r"^(Clone::clone\()?&?\**arg:\w+((?:\.\d+)*)\)?$", ret)
+    if m:
+        return True
+    return "key is `%s`" % ret[:100]
+
+
+PROG = [None]
 
 
 def _ref_call(body, uses, l, depth):
@@ -201,6 +230,7 @@ ALLOW_LOOPS = {
 
 
 def run_e4(prog, rep, rule="E4", file_filter=None):
+    PROG[0] = prog
     srcs = sources(prog)
     n = 0
     cnt = {}
